@@ -592,6 +592,98 @@ def run_logic(prop="C10", tier="quick"):
 GETC = {"getc", "fgetc", "_IO_getc", "getc_unlocked", "fgetc_unlocked"}
 
 
+def eof_guard(prop, ex, res):
+    """A getc result is used as an index into the digit-value table only where the path has established that it is not EOF (-1): at the
+    end of the input the conversion must stop with what it has (or fail), not look up table[-1].  Must-dataflow per function: a variable
+    is 'checked' after the edge of c != EOF / c == EOF (false) / c >= 0 / c < 0 (false) and until it is assigned again."""
+    import r_divzero
+
+    def strip(e):
+        while isinstance(e, dict) and e.get("k") in ("cast", "paren"):
+            e = e["e"]
+        return e
+    for path, fn in ex.functions(lambda p: any(d in p for d in ("/mpz/", "/mpq/", "/mpf/", "/scanf/"))):
+        gvars = set()
+        for b in fn["blocks"]:
+            for el in b["elems"]:
+                def g(n):
+                    if n.get("k") == "binop" and n["op"] == "=" and strip(n["l"]).get("k") == "var" and strip(n["r"]).get("k") == "call" \
+                            and strip(n["r"]).get("callee") in GETC:
+                        gvars.add(strip(n["l"])["id"])
+                sa.walk(el["e"], g)
+        if not gvars:
+            continue
+        blocks = sa.blocks_by_id(fn)
+
+        def tab_index_vars(e):
+            out = []
+
+            def f(n):
+                if n.get("k") != "index":
+                    return
+                bs = strip(n["base"])
+                if not (isinstance(bs, dict) and bs.get("k") == "var" and ("digit_value" in bs.get("name", ""))):
+                    return
+                sa.walk(n["idx"], lambda m: out.append(m["id"]) if m.get("k") == "var" and m["id"] in gvars else None)
+            sa.walk(e, f)
+            return out
+
+        def refine(cond, truth, st):
+            c = sa.strip_expect(cond)
+            while isinstance(c, dict) and c.get("k") == "unop" and c["op"] == "!":
+                c = sa.strip_expect(c["e"])
+                truth = not truth
+            c = strip(c)
+            if not isinstance(c, dict) or c.get("k") != "binop" or c["op"] not in ("==", "!=", "<", ">="):
+                return st
+            l, r = strip(c["l"]), strip(c["r"])
+            if l.get("k") == "int" and r.get("k") == "var":
+                l, r = r, l
+                if c["op"] in ("<", ">="):
+                    return st
+            if l.get("k") != "var" or l["id"] not in gvars or r.get("k") != "int":
+                return st
+            ok = (c["op"] == "!=" and r["v"] == -1 and truth) or (c["op"] == "==" and r["v"] == -1 and not truth) or \
+                 (c["op"] == ">=" and r["v"] == 0 and truth) or (c["op"] == "<" and r["v"] == 0 and not truth)
+            return st | {l["id"]} if ok else st
+        IN = {fn["entry"]: frozenset()}
+        work = {fn["entry"]}
+        reported = set()
+        while work:
+            bid = max(work)
+            work.discard(bid)
+            b = blocks[bid]
+            st = IN[bid]
+            for el in b["elems"]:
+                for v in tab_index_vars(el["e"]):
+                    res["stats"]["eof_guard_obligations"] += 0 if (bid, el["line"], v) in reported else 1
+                    if v not in st and (el["line"], v) not in reported:
+                        res["findings"].append(Finding(prop, "R-TABIDX.digit", fn["file"], el["line"], fn["name"], "eof-unguarded-index",
+                                                       "a getc result indexes the digit-value table at line %d on a path that has not compared it with EOF "
+                                                       "since it was read: at the end of the input the lookup is table[-1]" % el["line"]))
+                    reported.add((bid, el["line"], v))
+                    reported.add((el["line"], v))
+
+                def kill(n):
+                    nonlocal st
+                    if n.get("k") == "binop" and n["op"].endswith("=") and n["op"] not in ("==", "!=", "<=", ">=") and strip(n["l"]).get("k") == "var":
+                        st = st - {strip(n["l"])["id"]}
+                sa.walk(el["e"], kill)
+            if b.get("noreturn"):
+                continue
+            t = b.get("term")
+            cond = sa.effective_cond(t) if t and t.get("cond") and len(b["succs"]) == 2 else None
+            for si, s_ in enumerate(b["succs"]):
+                if not isinstance(s_, int) or s_ == fn["exit"]:
+                    continue
+                o = refine(cond, si == 0, st) if cond is not None else st
+                cur = IN.get(s_)
+                new = o if cur is None else (cur & o)
+                if cur is None or new != cur:
+                    IN[s_] = frozenset(new)
+                    work.add(s_)
+
+
 def run_digit_index(prop="C06", tier="quick"):
     res = dict(findings=[], stats=collections.Counter(), samples=[], notes=[])
     ex = sa.export(sa.cfg_built())
@@ -719,6 +811,7 @@ def run_digit_index(prop="C06", tier="quick"):
                                                        "held in a plain char indexes before the table and invalid input is accepted as a digit"
                                                        % (nm, line, " (assigned at line %d without an unsigned char conversion)" % bad if bad else "")))
                 sa.walk(e, f)
+    eof_guard(prop, ex, res)
     if res["stats"]["table_reads"] < 8:
         raise AnalysisBroken("R-TABIDX.digit found only %d reads of the digit-value table (floor 8)" % res["stats"]["table_reads"])
     res["stats"] = dict(res["stats"])
